@@ -119,6 +119,27 @@ fn payload(n: usize, pat: usize, per: usize, nl: usize) -> Vec<u8> {
                             [0xE6u8, 0x9D, 0xB1][i % 3]
                         }
                     }
+                    // third pass: ill-formed UTF-8 of every kind, every 31 bytes (the sequences straddle the PIPE_BUF /
+                    // PIPE_SIZE boundaries): lone continuation, truncated 3- and 4-byte sequences, an overlong form, a
+                    // surrogate, a byte that cannot occur, and a well-formed 3-byte character
+                    8 => match i % 31 {
+                        5 => 0x80,
+                        9 => 0xE6,
+                        10 => 0x9D,
+                        15 => 0xC0,
+                        16 => 0xAF,
+                        20 => 0xED,
+                        21 => 0xA0,
+                        22 => 0x80,
+                        25 => 0xF5,
+                        27 => 0xF0,
+                        28 => 0x9F,
+                        29 => 0x98,
+                        0 if i > 0 => 0xE6,
+                        1 if i > 1 => 0x9D,
+                        2 if i > 2 => 0xB1,
+                        _ => alpha(97, i, 7),
+                    },
                     _ => alpha(97, i, 7),
                 }
             }
@@ -2572,6 +2593,25 @@ fn main() {
                 &format!(
                     "sh n={n} pat=7 per=0 nl={nl} src={src} shape={shape} kind={kind} pro=0 seed={}",
                     rng4.below(1_000_000)
+                ),
+                false,
+            );
+        }
+    }
+
+    // (ii-b'') third pass: command substitutions whose output is ill-formed UTF-8 of every kind (from_utf8_lossy),
+    // the ill-formed sequences straddling the capacity boundaries, through 0-2 pipeline stages
+    let mut rng5 = Rng::new(opts.seed ^ 0xC14_0500);
+    for &n in &sizes {
+        for _ in 0..(if thorough { 10 } else { 1 }) {
+            let nl = [0, 1, 2, 5, PIPE_BUF + 88][rng5.below(5)].min(n);
+            let src = *rng5.pick(&["gen", "file"]);
+            let shape = *rng5.pick(&["-", "c", "cc", "yc"]);
+            let kind = *rng5.pick(&["var", "var", "bq"]);
+            run(
+                &format!(
+                    "sh n={n} pat=8 per=0 nl={nl} src={src} shape={shape} kind={kind} pro=0 seed={}",
+                    rng5.below(1_000_000)
                 ),
                 false,
             );
